@@ -101,6 +101,33 @@ def _has_return_in_loop_or_try(stmts: List[ast.stmt]) -> bool:
     return rec(stmts, False)
 
 
+def _final_loop_returns_to_breaks(body: List[ast.stmt]) -> List[ast.stmt]:
+    """When the last statement of a helper is a loop (no else part) and nothing is wanted from its `return`s, a `return` directly
+    in that loop (not in an inner loop, try or with) leaves the loop and thereby the helper: it reads as `break`."""
+    if not body or not isinstance(body[-1], (ast.For, ast.While)) or body[-1].orelse:
+        return body
+    lp = copy.deepcopy(body[-1])
+    ok = [True]
+
+    def rec(stmts):
+        out = []
+        for st in stmts:
+            if isinstance(st, ast.Return):
+                out.append(ast.copy_location(ast.Break(), st))
+                continue
+            if isinstance(st, ast.If):
+                st.body = rec(st.body)
+                st.orelse = rec(st.orelse)
+            elif any(isinstance(x, ast.Return) for x in ast.walk(st)) and not isinstance(st, (ast.FunctionDef, ast.ClassDef)):
+                ok[0] = False
+            out.append(st)
+        return out
+    lp.body = rec(lp.body)
+    if not ok[0]:
+        return body
+    return list(body[:-1]) + [lp]
+
+
 def _ends_in_raise(stmts: List[ast.stmt]) -> bool:
     return bool(stmts) and isinstance(stmts[-1], ast.Raise)
 
@@ -427,6 +454,8 @@ class Inliner:
             gl = {nm for st in body for n in ast.walk(st) if isinstance(n, ast.Global) for nm in n.names}
             body = [st for st in body if not isinstance(st, ast.Global)]
             self._globals = getattr(self, "_globals", set()) | gl
+        if result is None and _has_return_in_loop_or_try(body):
+            body = _final_loop_returns_to_breaks(body)
         if _has_return_in_loop_or_try(body):
             raise CannotInline("return inside a loop or try")
         # rename helper locals
@@ -544,6 +573,11 @@ class Inliner:
         # for T in self._gen(...): BODY   with a private generator helper: the helper's body with `yield E` -> `T = E; BODY`
         if isinstance(st, ast.For) and not st.orelse and isinstance(st.iter, ast.Call):
             r = self.resolve_call(st.iter)
+            if r is not None and _is_generator(r[0]) and any(isinstance(n, ast.Continue) for b in st.body for n in ast.walk(b)):
+                nb = _nest_continues_deep(st.body)
+                if not any(isinstance(n, ast.Continue) for b in nb for n in ast.walk(b)):
+                    st = copy.copy(st)
+                    st.body = nb
             if r is not None and _is_generator(r[0]) and not any(isinstance(n, (ast.Break, ast.Continue, ast.Return)) for b in st.body for n in ast.walk(b)):
                 fn, bound = r
                 # an early `return` of the generator ends the iteration (the loop has no else/break): read as "rest not executed"
@@ -584,9 +618,35 @@ class Inliner:
 
     def _block(self, stmts: List[ast.stmt], depth: int) -> List[ast.stmt]:
         out: List[ast.stmt] = []
+        stmts = self._hoist_generator_locals(stmts)
         for st in stmts:
             out.extend(self._stmt(st, depth))
         return out
+
+    def _hoist_generator_locals(self, stmts: List[ast.stmt]) -> List[ast.stmt]:
+        """`rows = self._gen(...)` directly followed by `for … in rows:` (the local bound once and read only there) reads as
+        `for … in self._gen(...):` — a generator runs nothing until it is iterated."""
+        res: List[ast.stmt] = []
+        i = 0
+        while i < len(stmts):
+            st = stmts[i]
+            nxt = stmts[i + 1] if i + 1 < len(stmts) else None
+            if isinstance(st, ast.Assign) and len(st.targets) == 1 and isinstance(st.targets[0], ast.Name) and isinstance(st.value, ast.Call) \
+                    and isinstance(nxt, ast.For) and isinstance(nxt.iter, ast.Name) and nxt.iter.id == st.targets[0].id:
+                r = self.resolve_call(st.value)
+                nm = st.targets[0].id
+                root = getattr(self, "_root", None)
+                if r is not None and _is_generator(r[0]) and root is not None:
+                    uses = [n for n in ast.walk(root) if isinstance(n, ast.Name) and n.id == nm]
+                    if len(uses) == 2:
+                        lp = copy.copy(nxt)
+                        lp.iter = st.value
+                        res.append(lp)
+                        i += 2
+                        continue
+            res.append(st)
+            i += 1
+        return res
 
     # ------------------------------------------------------------------ expressions
     def _exprs(self, st: ast.stmt, depth: int) -> ast.stmt:
@@ -669,6 +729,7 @@ class Inliner:
     # ------------------------------------------------------------------ entry
     def flatten(self, fn: ast.FunctionDef) -> ast.FunctionDef:
         new = copy.deepcopy(fn)
+        self._root = new
         self.caller_names = {n.id for n in ast.walk(new) if isinstance(n, ast.Name)} | {a.arg for a in new.args.args}
         # closures defined directly in the body and bound only by their `def`
         stores: Dict[str, int] = {}
@@ -1000,6 +1061,19 @@ def _nest_continues(body: List[ast.stmt]) -> List[ast.stmt]:
     return out
 
 
+def _nest_continues_deep(body: List[ast.stmt]) -> List[ast.stmt]:
+    """_nest_continues applied to a loop body and, recursively, to the branches of an `if` in tail position (a `continue` there
+    still skips only what follows it in the iteration; in an `if` that is followed by more statements it would skip those too)."""
+    out = _nest_continues([copy.deepcopy(x) for x in body])
+    if out and isinstance(out[-1], ast.If):
+        out[-1].body = _nest_continues_deep(out[-1].body) or [ast.Pass()]
+        out[-1].orelse = _nest_continues_deep(out[-1].orelse)
+    # a `continue` that ends a tail block skips nothing
+    if len(out) > 1 and isinstance(out[-1], ast.Continue):
+        out = out[:-1]
+    return out
+
+
 def _bind_target(target: ast.expr, value: ast.expr) -> Optional[Dict[str, ast.expr]]:
     if isinstance(target, ast.Name):
         return {target.id: value}
@@ -1018,7 +1092,7 @@ def unroll(fn: ast.FunctionDef, repo: Optional[Repo] = None, ci: Optional[ClassI
     """Copy of `fn` with loops and comprehensions over iterables known from the source unrolled, constant-name
     getattr/setattr written as attribute access, and `yield from chain(...)` over known lists split into single
     `yield from`s.  The iteration space must be visible in the code (≤ 16 elements); everything else is left alone."""
-    new = copy.deepcopy(fn)
+    new = _splice_starred_displays(copy.deepcopy(fn))
 
     def assigned_names(stmts) -> Set[str]:
         return {n.id for st in stmts for n in ast.walk(st) if isinstance(n, ast.Name) and isinstance(n.ctx, (ast.Store, ast.Del))}
@@ -1213,6 +1287,10 @@ def unroll(fn: ast.FunctionDef, repo: Optional[Repo] = None, ci: Optional[ClassI
                 c = st.value.value
                 f = norm(c.func)
                 parts = None
+                if f.split(".")[-1] == "chain" and any(isinstance(a, ast.Starred) for a in c.args) and len(c.args) > 1:
+                    c2 = _splice_starred_displays(expr_unroll(copy.deepcopy(c), env))       # chain(a, b, *[x.chunks() for x in KNOWN])
+                    if isinstance(c2, ast.Call) and not any(isinstance(a, ast.Starred) for a in c2.args):
+                        c = c2
                 if f.split(".")[-1] == "from_iterable" and len(c.args) == 1:
                     parts = _literal_elements(None, None, expr_unroll(copy.deepcopy(c.args[0]), env), env)
                 elif f.split(".")[-1] == "chain" and c.args and not c.keywords:
@@ -1420,6 +1498,8 @@ def _module_int_constants(repo: Repo, sf: SourceFile) -> Dict[str, int]:
 def normalize(repo: Repo, ci: Optional[ClassInfo], fn: ast.FunctionDef, sf: Optional[SourceFile] = None, aliases: bool = False, **kw) -> ast.FunctionDef:
     """flatten, then unroll (and, on request, expand attribute-chain aliases): the form in which rules read a function."""
     out = _flatten_only(repo, ci, fn, sf, **kw)
+    if any(isinstance(n, ast.Call) and isinstance(n.func, ast.Call) and norm(n.func.func).split(".")[-1] in ("itemgetter", "attrgetter") for n in ast.walk(out)):
+        out = desugar_getters(out)
     if any(isinstance(n, ast.Attribute) and n.attr in ("pack", "unpack", "unpack_from") for n in ast.walk(out)):
         try:
             out = desugar_structs(repo, ci, sf, out)         # before unrolling: zip(FIELDS, CODEC.unpack(data)) is then recognised
@@ -1484,6 +1564,57 @@ def normalize(repo: Repo, ci: Optional[ClassInfo], fn: ast.FunctionDef, sf: Opti
         except Exception:
             pass
     return out
+
+
+def _splice_starred_displays(fn: ast.AST) -> ast.AST:
+    """`(a, b, *(c, d))` is `(a, b, c, d)` (also in list displays and call arguments; loads only)."""
+    class S(ast.NodeTransformer):
+        def _splice(self, elts):
+            out = []
+            for e in elts:
+                if isinstance(e, ast.Starred) and isinstance(e.value, (ast.Tuple, ast.List)) and not any(isinstance(x, ast.Starred) for x in e.value.elts):
+                    out.extend(e.value.elts)
+                else:
+                    out.append(e)
+            return out
+
+        def visit_Tuple(self, node):
+            node = self.generic_visit(node)
+            if isinstance(node.ctx, ast.Load):
+                node.elts = self._splice(node.elts)
+            return node
+        visit_List = visit_Tuple
+
+        def visit_Call(self, node):
+            node = self.generic_visit(node)
+            node.args = self._splice(node.args)
+            return node
+    return S().visit(fn)
+
+
+def desugar_getters(fn: ast.FunctionDef) -> ast.FunctionDef:
+    """`itemgetter(0, 1, 2)(X)` reads as `(X[0], X[1], X[2])`, `itemgetter(k)(X)` as `X[k]`; `attrgetter("a", "b")(X)` as `(X.a, X.b)`
+    (plain names only).  X must be a name or attribute chain (it is written several times)."""
+    class G(ast.NodeTransformer):
+        def visit_Call(self, node):
+            node = self.generic_visit(node)
+            if isinstance(node.func, ast.Call) and len(node.args) == 1 and not node.keywords and not node.func.keywords and node.func.args \
+                    and isinstance(node.args[0], (ast.Name, ast.Attribute)) and norm(node.args[0]).count("(") == 0:
+                kind = norm(node.func.func).split(".")[-1]
+                x = node.args[0]
+                if kind == "itemgetter" and all(isinstance(a, ast.Constant) for a in node.func.args):
+                    parts = [ast.Subscript(value=copy.deepcopy(x), slice=a, ctx=ast.Load()) for a in node.func.args]
+                elif kind == "attrgetter" and all(isinstance(a, ast.Constant) and isinstance(a.value, str) and a.value.isidentifier() for a in node.func.args):
+                    parts = [ast.Attribute(value=copy.deepcopy(x), attr=a.value, ctx=ast.Load()) for a in node.func.args]
+                else:
+                    return node
+                new = parts[0] if len(parts) == 1 else ast.Tuple(elts=parts, ctx=ast.Load())
+                return ast.copy_location(new, node)
+            return node
+    new = G().visit(copy.deepcopy(fn))
+    ast.fix_missing_locations(new)
+    number(new)
+    return new
 
 
 def resolve_flags(fn: ast.FunctionDef) -> ast.FunctionDef:
@@ -2123,7 +2254,7 @@ def nest_loop_continues(fn: ast.FunctionDef) -> ast.FunctionDef:
     class X(ast.NodeTransformer):
         def _loop(self, node):
             node = self.generic_visit(node)
-            node.body = _nest_continues(node.body)
+            node.body = _nest_continues_deep(node.body) or [ast.Pass()]
             return node
         visit_For = visit_While = _loop
 
@@ -2132,21 +2263,6 @@ def nest_loop_continues(fn: ast.FunctionDef) -> ast.FunctionDef:
             return node
     new = copy.deepcopy(fn)
     X().visit(new)
-    # nested ifs produced above may themselves hold `continue` guards one level down
-    for _ in range(3):
-        changed = False
-        for lp in ast.walk(new):
-            if isinstance(lp, (ast.For, ast.While)):
-                for iff in ast.walk(lp):
-                    if isinstance(iff, ast.If) and iff is not lp:
-                        for fld in ("body", "orelse"):
-                            b = getattr(iff, fld)
-                            nb = _nest_continues(b)
-                            if len(nb) != len(b):
-                                setattr(iff, fld, nb)
-                                changed = True
-        if not changed:
-            break
     ast.fix_missing_locations(new)
     number(new)
     return new
